@@ -930,7 +930,16 @@ theorem scaleOK_step {lo hi : α} {s : State α} (op : Op α) (hop : OpScaleOK l
       exact ih (scaleOK_tell lossFn r12 p.1 p.2 (hp p List.mem_cons_self) h)
         (fun q hq => hp q (List.mem_cons_of_mem _ hq))
 
-/-- every operation of the run satisfies `OpScaleOK` in the state it is applied in -/
+/-- every operation of the run satisfies `OpScaleOK` in the state it is applied in.
+
+This is a STATIC sufficient condition for `lossScale = scaleX` that needs no invariant; it excludes
+the batch path of `tell_many` altogether, which was the only safe thing to say in this file before
+the repair `fix: Learner1D.tell_many batch path shrank the x-scale to the range of the points` (a
+batch without the end points of the domain left `lossScale ≠ scaleX` after the next `tell`).  Since
+the repair the exclusion is NOT needed: `ScaleOK` holds after every history whose points lie in
+`[lo, hi]`, batches included (`scaleOK_run_of_valid` in `L1DFinal`, from `BInv`), and the property
+theorems use that (`ask_optimal_run`, `ask_optimal_run_card`, `Props/C02.lean`).  The definitions
+below are kept because they do not ask for `lo < hi` nor for in-bounds PENDING points. -/
 def RunScaleOK (lo hi : α) : State α → List (Op α) → Prop
   | _, [] => True
   | s, op :: ops => OpScaleOK lo hi s op ∧ RunScaleOK lo hi (step lossFn r12 s op) ops
@@ -958,7 +967,8 @@ end scale
 
 /-- `ask_greedy_optimal` for the states reached by runs that tell only points of `[lo, hi]` and
 never take the batch path of `tell_many`: sortedness of the tables and `lossScale = scaleX` hold
-automatically. -/
+automatically.  (Superseded by `ask_optimal_run_card` of `L1DFinal`, which takes `ValidOps` — batches
+allowed, with or without the end points of the domain — and discharges `hI`, `hb`, `hw`, `hne`.) -/
 theorem ask_greedy_optimal_run (lossFn : List (Option α) → List (Option (List α)) → Loss α)
     (r12 : α → α) (hr : Monotone r12) (lo hi factor dxEps : α) (nn : Nat) (hlt : lo < hi)
     (ops : List (Op α)) (hops : RunScaleOK lossFn r12 lo hi (init lo hi factor dxEps nn) ops)
